@@ -331,6 +331,7 @@ func main() {
 	writeIfChanged(filepath.Join(out, "Consts.lean"), genConsts(constOrder, constVals))
 	writeIfChanged(filepath.Join(out, "Facts.lean"), genFacts(&F))
 	writeIfChanged(filepath.Join(out, "Flows.lean"), genFlows(repo))
+	writeIfChanged(filepath.Join(out, "Alias.lean"), genAlias(repo))
 	js, _ := json.MarshalIndent(&F, "", " ")
 	writeIfChanged(filepath.Join(out, "facts.json"), string(js)+"\n")
 }
